@@ -1008,7 +1008,15 @@ caf_write_strings (SF_PRIVATE * psf, int location)
 
 static int
 caf_set_chunk (SF_PRIVATE *psf, const SF_CHUNK_INFO * chunk_info)
-{	return psf_save_write_chunk (&psf->wchunks, chunk_info) ;
+{	/* The chunks that make up the structure of the file are written by the library alone. */
+	static const char * const reserved [] = { "caff", "desc", "data", "pakt" } ;
+	size_t k ;
+
+	for (k = 0 ; k < ARRAY_LEN (reserved) ; k++)
+		if (strncmp (chunk_info->id, reserved [k], 4) == 0)
+			return SFE_BAD_CHUNK_MARKER ;
+
+	return psf_save_write_chunk (&psf->wchunks, chunk_info) ;
 } /* caf_set_chunk */
 
 static SF_CHUNK_ITERATOR *
